@@ -171,6 +171,23 @@ func RoundTrip(c *enum.Ctx, name string, v reflect.Value, strict bool) string {
 		return "encode-error"
 	}
 	h1 := hashOf(enc1)
+	// the Encoder type is the same codec behind another entry point
+	{
+		encE := tb.NewCell()
+		var eerr error
+		panicked := false
+		func() {
+			defer func() {
+				if recover() != nil {
+					panicked = true
+				}
+			}()
+			eerr = (&tlb.Encoder{}).Marshal(encE, v.Interface())
+		}()
+		if panicked || eerr != nil || hashOf(encE) != h1 {
+			c.Fail("encoder-entry-points-differ:"+name, "tlb.Marshal and Encoder.Marshal of the same value differ (panic=%v err=%v)", panicked, eerr)
+		}
+	}
 	decode := func(cellv *tb.Cell, tag string) (reflect.Value, error) {
 		cellv.ResetCounters()
 		p := reflect.New(t)
